@@ -92,7 +92,7 @@ def build(m):
                             'implies(not result, self.number == old(self.number) and self.type == old(self.type) '
                             'and self.start == old(self.start) and self.end == old(self.end))'],
                    modifies=['self.start', 'self.end', 'self.number', 'self.type'], prop=P,
-                   options={'slice_axioms': True}))
+                   options={'slice_axioms': True, 'timeout_ms': 30000}))
     m.predicate('SPEC_RULE3', ['oo', 'oc', 'on', 'co', 'cc', 'cn'],
                 'implies((oo and oc) or (co and cc), (on + cn) % 3 != 0 or (on % 3 == 0 and cn % 3 == 0))')
     m.methods[('Delimiter', 'closed_by')] = MOD + ':Delimiter.closed_by'
@@ -179,7 +179,7 @@ def build2(m):
                        'is_none(stack_bottom) or not EMPH(delimiters[some(stack_bottom)])',
                        'forall(lambda i: delimiters[i] == old(delimiters)[i], 0, (0 if is_none(stack_bottom) else some(stack_bottom) + 1))',
                    ])},
-                   prop=P, options={'concat_axioms': True},
+                   prop=P, options={'concat_axioms': True, 'timeout_ms': 30000},
                    note='termination of loop#0 is not proved (lexicographic variant over a sum of heap fields); '
                         'index and attribute safety do not depend on it'))
 
